@@ -45,6 +45,8 @@ def replay(case):
                             x = [x[q] ^ R[q][j] for q in range(n)]
                             z = [z[q] ^ S[q][j] for q in range(n)]
                     labels_m.append(label_of_xz(x, z))
+            if len(prep.data) != 0 or prep.num_clbits != ncl or any(c is prep for c in circs):
+                return True, "the circuit builder modified (or returned) the caller's preparation circuit"
             counts = [tp._with_cregs(tp.native_counts(c, rho, N), ncl) for c in circs]
             orders = ((True,),) if mq is None else ((False, True), (True, False))
             for order in orders:
